@@ -43,6 +43,23 @@ def classTab (adj : List (List Nat)) : Nat → List (List Bool)
       (List.range adj.length).all fun w =>
         (nbrs adj u).countP (tget t w) == (nbrs adj v).countP (tget t w)
 
+/-- the class table of the first stable round `≤ fuel` rounds ahead (stability persists: `stable_forever`),
+    with the number of rounds used -/
+def stableTab (adj : List (List Nat)) : Nat → Nat → List (List Bool) → Nat × List (List Bool)
+  | 0, k, t => (k, t)
+  | fuel+1, k, t =>
+    let t' := tab adj.length fun u => tab adj.length fun v =>
+      tget t u v &&
+      (List.range adj.length).all fun w =>
+        (nbrs adj u).countP (tget t w) == (nbrs adj v).countP (tget t w)
+    if t' == t then (k, t) else stableTab adj fuel (k+1) t'
+
+/-- do the colours group the nodes exactly as the stable refinement does? -/
+def groupsAsStable (adj : List (List Nat)) (labels : List Nat) : Bool :=
+  let t := (stableTab adj adj.length 0 (classTab adj 0)).2
+  (List.range adj.length).all fun u => (List.range adj.length).all fun v =>
+    (labels.getD u 0 == labels.getD v 0) == tget t u v
+
 def groupsAsT (adj : List (List Nat)) (k : Nat) (labels : List Nat) : Bool :=
   let t := classTab adj k
   (List.range adj.length).all fun u => (List.range adj.length).all fun v =>
